@@ -165,6 +165,18 @@ class C16(Driver):
                     tasks[-1]["child_ms"] = r.choice([4, 8])
                     tasks[-1]["x"] = False
                 tid += 1
+        if mode == "single" and r.random() < 0.12:
+            # a burst of children that all exit while this thread is not in its loop (os/sleep): their statuses arrive
+            # as one batch of completions, every waiter gets its own child's status
+            tasks.append({"id": tid, "role": "b", "sd": -1, "steps": [], "n": r.choice([5, 17, 20, 24, 33, 40]), "child_ms": r.choice([1, 2, 5]),
+                          "block_ms": r.choice([8, 12])})
+            tid += 1
+        if mode == "single" and r.random() < 0.1:
+            # one socket with a reader parked and a writer parked behind a full buffer, closed locally by a third
+            # fiber: both are woken
+            tasks.append({"id": tid, "role": "d", "sd": -1, "steps": [], "ms": r.choice([0, 2, 5]), "who": r.choice(["accepted", "connected"]),
+                          "how": r.choice([":close", "ev/close", "net/close"])})
+            tid += 1
         flavour = "asan" if r.random() < 0.15 else "plain"
         if r.random() < 0.5:
             for t in tasks:
@@ -434,6 +446,25 @@ class C16(Driver):
                 else:
                     A("  (try (sim/ev :ret %d 0 :exit (os/execute [\"sim-child\" \"s%d\" \"%s\"] :p%s)) ([e] (sim/ev :ret %d 0 :err e)))"
                       % (T, t["child_ms"], tail, "x" if t["x"] else "", T))
+            elif t["role"] == "d":
+                A("  (def name (string \"@jsim-c16-d-\" (os/getpid) \"-%d\")) (def srv (net/listen :unix name)) (def c (net/connect :unix name)) (def a (net/accept srv)) (:close srv)" % T)
+                A("  (def [mine other] %s) (def out @{})" % ("[a c]" if t["who"] == "accepted" else "[c a]"))
+                A("  (ev/go (fn [] (put out :r (try (do (ev/read mine 10) :returned) ([e] :raised)))))")
+                A("  (ev/go (fn [] (put out :w (try (do (ev/write mine (string/repeat \"x\" 1000000)) :returned) ([e] :raised)))))")
+                A("  (ev/sleep %s)" % (t["ms"] / 1000.0))
+                A("  (sim/ev :inv %d 0)" % T)
+                A("  (%s mine)" % t["how"])
+                A("  (ev/sleep 0.02)")
+                A("  (sim/ev :ret %d 0 :duplex (get out :r :pending) (get out :w :pending))" % T)
+                A("  (:close other)")
+            elif t["role"] == "b":
+                n = t["n"]
+                A("  (sim/ev :inv %d 0)" % T)
+                A("  (def ps (seq [i :range [0 %d]] (os/spawn [\"sim-child\" \"s%d\" (string \"x\" (+ 1 (%% i 100)))] :p)))" % (n, t["child_ms"]))
+                A("  (def res (array/new-filled %d :pending))" % n)
+                A("  (for i 0 %d (ev/go (fn [] (put res i (try (os/proc-wait (ps i)) ([e] :raised))))))" % n)
+                A("  (ev/sleep 0) (os/sleep %s) (ev/sleep 0.05)" % (t["block_ms"] / 1000.0))
+                A("  (sim/ev :ret %d 0 :burst (count |(= $ :pending) res) (sum (seq [i :range [0 %d]] (if (= (res i) (+ 1 (%% i 100))) 0 1))))" % (T, n))
             elif t["role"] == "k":
                 sd = plan["sds"][s]
                 signame = {9: ":kill", 15: ":term", 2: ":int"}[sd["sig"]]
@@ -744,7 +775,9 @@ class C16(Driver):
         # ---- end of stream is reported when the last writer closes, not when some unrelated process ends ----
         # (simulated time only advances when every thread is blocked: a reader whose stream has ended is runnable)
         for t in tasks.values():
-            if t["role"] != "r" or t["sd"] < 0 or sds[t["sd"]]["kind"] not in ("pipe", "unix"):
+            # (cat: the child copies its input to its output and ends when its input ends - its input ends when the
+            # parent's write end is closed, provided no other process inherited a copy of that end)
+            if t["role"] != "r" or t["sd"] < 0 or sds[t["sd"]]["kind"] not in ("pipe", "unix", "cat"):
                 continue
             wclose = [ret[(w["id"], 900)][0] for w in tasks.values() if w["role"] == "w" and w["sd"] == t["sd"] and (w["id"], 900) in ret]
             if not wclose:
@@ -824,6 +857,22 @@ class C16(Driver):
                 msg = " ".join(r_[1][1:])
                 if not (t["x"] and expect != 0 and msg.strip('"').endswith("exit code %d" % expect)):
                     V("C16/child/os-execute-raised", "expected status %d (x=%s), got error %s" % (expect, t["x"], msg[:80]))
+        for t in tasks.values():
+            if t["role"] == "d" and (t["id"], 0) in ret and ret[(t["id"], 0)][1][0] == ":duplex":
+                rr, ww = ret[(t["id"], 0)][1][1:3]
+                if rr == ":pending" or ww == ":pending":
+                    V("C16/close/pending-%s-not-woken-by-local-close" % ("reader-and-writer" if rr == ww else "reader" if rr == ":pending" else "writer"),
+                      "20 ms after the close: reader %s, writer %s" % (rr, ww))
+        for t in tasks.values():
+            if t["role"] != "b" or (t["id"], 0) not in inv:
+                continue
+            r_ = ret.get((t["id"], 0))
+            if r_ is not None and r_[1][0] == ":burst":
+                pend, bad = int(r_[1][1]), int(r_[1][2])
+                if pend:
+                    V("C16/child/burst-of-exits/proc-wait-never-returned", "%d of %d waits still pending 50 ms after every child had exited" % (pend, t["n"]))
+                elif bad:
+                    V("C16/child/burst-of-exits/exit-status-misreported", "%d of %d waits returned another child's status" % (bad, t["n"]))
         for e in res.events:
             if e.kind == "!badclose":
                 V("C16/descriptor/closed-a-descriptor-that-is-not-open", "close(%s) failed with EBADF: a double close" % e.payload)
@@ -858,6 +907,7 @@ class C16(Driver):
         return {"waited": self._waited(res), "mode": plan["mode"], "kinds": [s["kind"] for s in plan["sds"]],
                 "dg": sum(1 for e in res.events if e.kind == "dg"),
                 "exec": sum(1 for t in plan.get("tasks", []) if t.get("role") == "e"),
+                "burst": sum(t["n"] for t in plan.get("tasks", []) if t.get("role") == "b"),
                 "shut": sum(1 for t in plan.get("tasks", []) if t.get("shut")),
                 "partial": pr.get("short_write_injected", 0) + pr.get("natural_partial_write", 0),
                 "eagain": fc.get("eagain_r", 0) + fc.get("eagain_w", 0) + pr.get("natural_eagain_w", 0),
@@ -873,7 +923,8 @@ class C16(Driver):
         return {"probes": {"op_waited": sum(x["waited"] for x in ex), "partial_write_resumed": sum(x["partial"] for x in ex),
                            "eagain_then_edge": sum(x["eagain"] for x in ex), "chunk_across_events": sum(x["chunks"] for x in ex),
                            "datagram_received_and_attributed": sum(x.get("dg", 0) for x in ex),
-                           "os_execute_calls": sum(x.get("exec", 0) for x in ex), "socket_half_closed": sum(x.get("shut", 0) for x in ex)},
+                           "os_execute_calls": sum(x.get("exec", 0) for x in ex),
+                           "children_exiting_in_one_burst": sum(x.get("burst", 0) for x in ex), "socket_half_closed": sum(x.get("shut", 0) for x in ex)},
                 "plans_by_mode": modes, "streams_by_kind": kinds}
 
     # ---------------- shrinking ----------------
